@@ -1,1 +1,1646 @@
-// stub
+//! Interpreter for `samlang_ast::mir::Sources` with the integer semantics of the WebAssembly
+//! target (i32 wrapping arithmetic, `div_s`/`rem_s` traps, signed comparisons, `shr_u`, masked
+//! shift counts, `Not` = `xor 1`).
+//!
+//! The same interpreter is run on the MIR before and after `samlang_optimization::optimize_sources`
+//! and the traces are compared, so it is deliberately *dynamic*: values carry their own run-time
+//! shape (i32, i31, string, struct with its type id, closure, Vec) and every use checks the shape
+//! it needs.  Anything wasm would trap on / refuse to validate, or that shows that the MIR is
+//! ill-formed (undefined variable, struct access on a non-struct, field index out of range, type
+//! confusion at a `Cast`, call of something that is not a function, signature mismatch of an
+//! indirect call, `break` outside a loop ...) ends the run with `Ending::Fault`.
+//!
+//! Every function is first compiled into a flat instruction vector with slot-resolved variables;
+//! execution uses an explicit frame stack, so deep samlang recursion never recurses on the host
+//! stack and `Limits::max_depth` is honoured exactly (the entry function is depth 1).  Object
+//! graphs are reference counted with an iterative `Drop`, so freeing a 1M-element linked list
+//! does not recurse either.
+//!
+//! Variables are function-wide slots (exactly like wasm locals): a variable assigned inside an
+//! `if` arm is visible after the `if` (the lowering of pattern matching relies on that).
+//! `LateInitDeclaration` resets its slot to "undefined".
+//!
+//! Loop-variable updates at the end of a `While` body and the initial assignments are performed
+//! sequentially in declaration order, as both back ends do.
+
+use crate::trace::{Ending, Limits, Trace, UbFlags};
+use samlang_ast::hir::BinaryOperator as Op;
+use samlang_ast::mir::{
+  self, Callee, EnumTypeDefinition, Expression, FunctionName, Statement, Type,
+  TypeDefinitionMappings, TypeNameId,
+};
+use samlang_heap::{Heap, ModuleReference, PStr};
+use std::cell::RefCell;
+use std::collections::HashMap;
+use std::rc::Rc;
+
+#[derive(Clone, Debug, Default, PartialEq, Eq)]
+pub struct MirStats {
+  /// executed flat instructions (one MIR statement is 1..3 instructions)
+  pub steps: u64,
+  /// calls of MIR functions (direct and through closures; builtins are not counted)
+  pub calls: u64,
+  /// number of `While` body entries
+  pub loop_iterations: u64,
+  /// deepest frame stack seen (entry function = 1)
+  pub max_depth: usize,
+}
+
+#[derive(Clone, Copy, Debug, Default)]
+pub struct Options {
+  /// Model the wasm lowering's boxing of `int` Vec elements through `ref.i31` (values are
+  /// truncated to 31 bits, sign extended on the way out).  Off by default: that is a property of
+  /// the wasm lowering, not of the MIR.
+  pub vec_int_i31_truncation: bool,
+}
+
+/// a single string may not grow beyond this many bytes (resource guard; ends in `StepLimit`)
+const MAX_STRING_BYTES: usize = 1 << 26;
+/// a single Vec may not grow beyond this many elements (resource guard; ends in `StepLimit`)
+const MAX_VEC_LEN: usize = 1 << 26;
+
+// ------------------------------------------------------------------------------------------
+// values
+// ------------------------------------------------------------------------------------------
+
+struct StrObj(Box<str>);
+
+struct StructObj {
+  ty: TypeNameId,
+  fields: Vec<Value>,
+}
+
+struct ClosureObj {
+  ty: TypeNameId,
+  func: u32,
+  ctx: Value,
+}
+
+struct VecInner {
+  data: Vec<Value>,
+  /// capacity as the wasm runtime would report it (length of the backing array)
+  cap: i32,
+}
+
+struct VecObj {
+  inner: RefCell<VecInner>,
+}
+
+#[derive(Clone)]
+enum Value {
+  /// slot never assigned (never escapes from a slot: reading it is a Fault)
+  Undef,
+  Int(i32),
+  /// `ref i31`: enum tags of payload-free variants, placeholders
+  I31(i32),
+  Str(Rc<StrObj>),
+  Struct(Rc<StructObj>),
+  Closure(Rc<ClosureObj>),
+  Vec(Rc<VecObj>),
+}
+
+impl Value {
+  fn is_container(&self) -> bool {
+    matches!(self, Value::Struct(_) | Value::Closure(_) | Value::Vec(_))
+  }
+  fn kind(&self) -> &'static str {
+    match self {
+      Value::Undef => "undefined",
+      Value::Int(_) => "i32",
+      Value::I31(_) => "i31",
+      Value::Str(_) => "string",
+      Value::Struct(_) => "struct",
+      Value::Closure(_) => "closure",
+      Value::Vec(_) => "Vec",
+    }
+  }
+}
+
+/// free an object graph without recursing on the host stack
+fn release(stack: &mut Vec<Value>) {
+  while let Some(v) = stack.pop() {
+    match v {
+      Value::Struct(rc) => {
+        if let Some(mut o) = Rc::into_inner(rc) {
+          stack.append(&mut o.fields);
+        }
+      }
+      Value::Closure(rc) => {
+        if let Some(mut o) = Rc::into_inner(rc) {
+          stack.push(std::mem::replace(&mut o.ctx, Value::Undef));
+        }
+      }
+      Value::Vec(rc) => {
+        if let Some(mut o) = Rc::into_inner(rc) {
+          stack.append(&mut o.inner.get_mut().data);
+        }
+      }
+      _ => {}
+    }
+  }
+}
+
+impl Drop for StructObj {
+  fn drop(&mut self) {
+    if self.fields.iter().any(Value::is_container) {
+      let mut st = std::mem::take(&mut self.fields);
+      release(&mut st);
+    }
+  }
+}
+
+impl Drop for ClosureObj {
+  fn drop(&mut self) {
+    if self.ctx.is_container() {
+      let mut st = vec![std::mem::replace(&mut self.ctx, Value::Undef)];
+      release(&mut st);
+    }
+  }
+}
+
+impl Drop for VecObj {
+  fn drop(&mut self) {
+    let inner = self.inner.get_mut();
+    if inner.data.iter().any(Value::is_container) {
+      let mut st = std::mem::take(&mut inner.data);
+      release(&mut st);
+    }
+  }
+}
+
+// ------------------------------------------------------------------------------------------
+// compiled form
+// ------------------------------------------------------------------------------------------
+
+#[derive(Clone, Copy, Debug)]
+enum Opnd {
+  Int(i32),
+  I31(i32),
+  Str(u32),
+  Slot(u32),
+}
+
+#[derive(Clone, Copy, Debug, PartialEq, Eq)]
+enum Builtin {
+  Println,
+  Panic,
+  StrFromInt,
+  StrToInt,
+  StrConcat,
+  StrEq,
+  VecEmpty,
+  VecOf,
+  VecWithCapacity,
+  VecLength,
+  VecCapacity,
+  VecReserve,
+  VecPush,
+  VecPop,
+  VecGet,
+  VecSet,
+  VecEq,
+  UnwrapI31,
+}
+
+impl Builtin {
+  fn arity(self) -> usize {
+    match self {
+      Builtin::Println | Builtin::Panic | Builtin::StrFromInt => 2,
+      Builtin::StrToInt => 1,
+      Builtin::StrConcat | Builtin::StrEq => 2,
+      Builtin::VecEmpty => 1,
+      Builtin::VecOf | Builtin::VecWithCapacity => 2,
+      Builtin::VecLength | Builtin::VecCapacity | Builtin::VecPop => 1,
+      Builtin::VecReserve | Builtin::VecPush | Builtin::VecGet | Builtin::VecEq => 2,
+      Builtin::VecSet => 3,
+      Builtin::UnwrapI31 => 1,
+    }
+  }
+  fn name(self) -> &'static str {
+    match self {
+      Builtin::Println => "Process.println",
+      Builtin::Panic => "Process.panic",
+      Builtin::StrFromInt => "Str.fromInt",
+      Builtin::StrToInt => "Str.toInt",
+      Builtin::StrConcat => "Str.concat",
+      Builtin::StrEq => "Str.eq",
+      Builtin::VecEmpty => "Vec.empty",
+      Builtin::VecOf => "Vec.of",
+      Builtin::VecWithCapacity => "Vec.withCapacity",
+      Builtin::VecLength => "Vec.length",
+      Builtin::VecCapacity => "Vec.capacity",
+      Builtin::VecReserve => "Vec.reserve",
+      Builtin::VecPush => "Vec.push",
+      Builtin::VecPop => "Vec.pop",
+      Builtin::VecGet => "Vec.get",
+      Builtin::VecSet => "Vec.set",
+      Builtin::VecEq => "Vec.eq",
+      Builtin::UnwrapI31 => "unwrapI31",
+    }
+  }
+}
+
+/// builtins are recognised by *identity of the MIR function name* with the constants that
+/// `samlang_ast::mir::FunctionName` exports (type id PROCESS / STR / VEC / EMPTY + fixed PStr)
+fn builtin_of(n: FunctionName) -> Option<Builtin> {
+  const TABLE: [(FunctionName, Builtin); 18] = [
+    (FunctionName::PROCESS_PRINTLN, Builtin::Println),
+    (FunctionName::PROCESS_PANIC, Builtin::Panic),
+    (FunctionName::STR_FROM_INT, Builtin::StrFromInt),
+    (FunctionName::STR_TO_INT, Builtin::StrToInt),
+    (FunctionName::STR_CONCAT, Builtin::StrConcat),
+    (FunctionName::STR_EQ, Builtin::StrEq),
+    (FunctionName::VEC_EMPTY, Builtin::VecEmpty),
+    (FunctionName::VEC_OF, Builtin::VecOf),
+    (FunctionName::VEC_WITH_CAPACITY, Builtin::VecWithCapacity),
+    (FunctionName::VEC_LENGTH, Builtin::VecLength),
+    (FunctionName::VEC_CAPACITY, Builtin::VecCapacity),
+    (FunctionName::VEC_RESERVE, Builtin::VecReserve),
+    (FunctionName::VEC_PUSH, Builtin::VecPush),
+    (FunctionName::VEC_POP, Builtin::VecPop),
+    (FunctionName::VEC_GET, Builtin::VecGet),
+    (FunctionName::VEC_SET, Builtin::VecSet),
+    (FunctionName::VEC_EQ, Builtin::VecEq),
+    (FunctionName::UNWRAP_I31, Builtin::UnwrapI31),
+  ];
+  TABLE.iter().find(|(f, _)| *f == n).map(|(_, b)| *b)
+}
+
+enum Instr {
+  Binary { dst: u32, op: Op, a: Opnd, b: Opnd, str_cmp: bool },
+  Not { dst: u32, a: Opnd },
+  IsPointer { dst: u32, ty: TypeNameId, a: Opnd },
+  Index { dst: u32, a: Opnd, idx: u32, static_ty: Option<TypeNameId> },
+  Mov { dst: u32, a: Opnd },
+  Undef { dst: u32 },
+  Cast { dst: u32, ty: Type, a: Opnd },
+  StructInit { dst: u32, ty: TypeNameId, fields: Box<[Opnd]> },
+  ClosureInit { dst: u32, ty: TypeNameId, func: u32, ctx: Opnd },
+  CallFn { func: u32, args: Box<[Opnd]>, dst: Option<u32> },
+  CallBuiltin { b: Builtin, args: Box<[Opnd]>, dst: Option<u32> },
+  CallClosure { callee: u32, static_ty: Option<TypeNameId>, args: Box<[Opnd]>, dst: Option<u32> },
+  Jump(u32),
+  /// jump when the (i32) condition is 0
+  JumpIfZero { c: Opnd, t: u32 },
+  /// jump when `(c xor 1) == 0`, i.e. the inverted test the wasm lowering emits
+  JumpIfOne { c: Opnd, t: u32 },
+  LoopEnter,
+  LoopBack(u32),
+  Return(Opnd),
+  Fault(Box<str>),
+  Unsupported(Box<str>),
+}
+
+/// the wasm-level type a MIR type lowers to (for the `call_indirect` signature check)
+#[derive(Clone, Copy, PartialEq, Eq, Debug)]
+enum LT {
+  I32,
+  I31,
+  Eq,
+  Ref(TypeNameId),
+}
+
+struct CFunc {
+  n_params: usize,
+  n_slots: usize,
+  code: Vec<Instr>,
+  slot_names: Vec<PStr>,
+  /// lowered signature with the first parameter erased to `(ref eq)` (how a closure function is
+  /// typed in the function table), `None` if the function has no parameter
+  closure_sig: Option<(Vec<LT>, LT)>,
+}
+
+enum TypeInfo {
+  Struct(Vec<Type>),
+  Enum(Vec<EnumTypeDefinition>),
+  /// lowered `(ref eq), args... -> ret`
+  Closure(Vec<LT>, LT),
+  /// boxed enum variant `Parent$_SubN`
+  Sub { parent: TypeNameId, tag: usize },
+}
+
+struct TypeTable<'a> {
+  heap: &'a Heap,
+  symbols: &'a mir::SymbolTable,
+  map: HashMap<TypeNameId, TypeInfo>,
+}
+
+impl<'a> TypeTable<'a> {
+  /// make sure `id` is known if it can be known (boxed-variant subtypes are discovered lazily,
+  /// the symbol table cannot be enumerated)
+  fn ensure(&mut self, id: TypeNameId) {
+    if self.map.contains_key(&id) {
+      return;
+    }
+    if let Some(parent) = self.symbols.get_parent_type_if_subtype(id) {
+      let enc = id.encoded_for_test(self.heap, self.symbols);
+      if let Some((_, n)) = enc.rsplit_once("$_Sub") {
+        if let Ok(tag) = n.parse::<usize>() {
+          self.map.insert(id, TypeInfo::Sub { parent, tag });
+        }
+      }
+    }
+  }
+
+  fn enum_has_i31(&self, id: TypeNameId) -> bool {
+    matches!(self.map.get(&id), Some(TypeInfo::Enum(vs)) if vs.iter().any(|v| matches!(v, EnumTypeDefinition::Int31)))
+  }
+
+  fn lower(&self, t: Type) -> LT {
+    match t {
+      Type::Int32 => LT::I32,
+      Type::Int31 => LT::I31,
+      Type::Id(id) => {
+        if self.enum_has_i31(id) {
+          LT::Eq
+        } else {
+          LT::Ref(id)
+        }
+      }
+    }
+  }
+
+  /// field types of a struct-like type (plain struct or boxed variant)
+  fn field_types(&self, id: TypeNameId) -> Option<&[Type]> {
+    match self.map.get(&id)? {
+      TypeInfo::Struct(ts) => Some(ts),
+      TypeInfo::Sub { parent, tag } => match self.map.get(parent)? {
+        TypeInfo::Enum(vs) => match vs.get(*tag)? {
+          EnumTypeDefinition::Boxed(ts) => Some(ts),
+          _ => None,
+        },
+        _ => None,
+      },
+      _ => None,
+    }
+  }
+
+  fn parent_of(&self, id: TypeNameId) -> Option<TypeNameId> {
+    match self.map.get(&id) {
+      Some(TypeInfo::Sub { parent, .. }) => Some(*parent),
+      _ => None,
+    }
+  }
+
+  /// MIR-level (lowering independent) compatibility of a run-time value with a MIR type
+  fn value_matches(&self, v: &Value, t: Type) -> bool {
+    match t {
+      Type::Int32 => matches!(v, Value::Int(_)),
+      Type::Int31 => matches!(v, Value::I31(_)),
+      Type::Id(id) => self.value_matches_id(v, id, 0),
+    }
+  }
+
+  fn value_matches_id(&self, v: &Value, id: TypeNameId, depth: u32) -> bool {
+    if matches!(v, Value::Int(_) | Value::Undef) {
+      return false;
+    }
+    if id == TypeNameId::STR {
+      return matches!(v, Value::Str(_));
+    }
+    if id == TypeNameId::VEC {
+      return matches!(v, Value::Vec(_));
+    }
+    match self.map.get(&id) {
+      None => true,
+      Some(TypeInfo::Struct(_)) | Some(TypeInfo::Sub { .. }) => {
+        matches!(v, Value::Struct(o) if o.ty == id)
+      }
+      Some(TypeInfo::Closure(..)) => matches!(v, Value::Closure(_)),
+      Some(TypeInfo::Enum(vs)) => match v {
+        Value::I31(n) => {
+          *n >= 0 && matches!(vs.get(*n as usize), Some(EnumTypeDefinition::Int31))
+        }
+        Value::Struct(o) if self.parent_of(o.ty) == Some(id) => true,
+        _ => {
+          depth < 4
+            && vs.iter().any(|d| match d {
+              EnumTypeDefinition::Unboxed(t) => self.value_matches_id(v, *t, depth + 1),
+              _ => false,
+            })
+        }
+      },
+    }
+  }
+}
+
+pub struct Program<'a> {
+  heap: &'a Heap,
+  sources: &'a mir::Sources,
+  funcs: Vec<CFunc>,
+  strings: Vec<Rc<StrObj>>,
+  types: TypeTable<'a>,
+  options: Options,
+}
+
+struct LoopCx {
+  collector: Option<u32>,
+  break_patches: Vec<usize>,
+}
+
+struct FnCompiler<'c, 'a> {
+  heap: &'a Heap,
+  sources: &'a mir::Sources,
+  types: &'c mut TypeTable<'a>,
+  fn_index: &'c HashMap<FunctionName, u32>,
+  str_index: &'c HashMap<PStr, u32>,
+  slots: HashMap<PStr, u32>,
+  slot_names: Vec<PStr>,
+  code: Vec<Instr>,
+  loops: Vec<LoopCx>,
+}
+
+fn is_string_expr(e: &Expression) -> bool {
+  match e {
+    Expression::StringName(_) => true,
+    Expression::Variable(v) => v.type_ == Type::Id(TypeNameId::STR),
+    _ => false,
+  }
+}
+
+impl<'c, 'a> FnCompiler<'c, 'a> {
+  fn slot(&mut self, n: PStr) -> u32 {
+    if let Some(s) = self.slots.get(&n) {
+      return *s;
+    }
+    let s = self.slot_names.len() as u32;
+    self.slots.insert(n, s);
+    self.slot_names.push(n);
+    s
+  }
+
+  fn opnd(&mut self, e: &Expression) -> Opnd {
+    match e {
+      Expression::Int32Literal(i) => Opnd::Int(*i),
+      Expression::Int31Literal(i) => Opnd::I31(*i),
+      Expression::StringName(n) => match self.str_index.get(n) {
+        Some(i) => Opnd::Str(*i),
+        None => {
+          // the wasm lowering would panic on the missing global (string_name_mapping.unwrap())
+          self.code.push(Instr::Fault(
+            format!("string literal {:?} is not in sources.global_variables", n.as_str(self.heap))
+              .into(),
+          ));
+          Opnd::Int(0)
+        }
+      },
+      Expression::Variable(v) => {
+        if let Type::Id(id) = v.type_ {
+          self.types.ensure(id);
+        }
+        Opnd::Slot(self.slot(v.name))
+      }
+    }
+  }
+
+  fn opnds(&mut self, es: &[Expression]) -> Box<[Opnd]> {
+    es.iter().map(|e| self.opnd(e)).collect()
+  }
+
+  fn fn_display(&self, n: &FunctionName) -> String {
+    n.encoded_for_test(self.heap, &self.sources.symbol_table)
+  }
+
+  fn block(&mut self, stmts: &[Statement]) {
+    for s in stmts {
+      self.stmt(s);
+    }
+  }
+
+  fn patch(&mut self, at: usize, target: u32) {
+    match &mut self.code[at] {
+      Instr::Jump(t) | Instr::JumpIfZero { t, .. } | Instr::JumpIfOne { t, .. } => *t = target,
+      _ => unreachable!(),
+    }
+  }
+
+  fn here(&self) -> u32 {
+    self.code.len() as u32
+  }
+
+  fn stmt(&mut self, s: &Statement) {
+    match s {
+      Statement::IsPointer { name, pointer_type, operand } => {
+        self.types.ensure(*pointer_type);
+        let a = self.opnd(operand);
+        let dst = self.slot(*name);
+        self.code.push(Instr::IsPointer { dst, ty: *pointer_type, a });
+      }
+      Statement::Not { name, operand } => {
+        let a = self.opnd(operand);
+        let dst = self.slot(*name);
+        self.code.push(Instr::Not { dst, a });
+      }
+      Statement::Binary(mir::Binary { name, operator, e1, e2 }) => {
+        let str_cmp =
+          matches!(operator, Op::EQ | Op::NE) && (is_string_expr(e1) || is_string_expr(e2));
+        let a = self.opnd(e1);
+        let b = self.opnd(e2);
+        let dst = self.slot(*name);
+        self.code.push(Instr::Binary { dst, op: *operator, a, b, str_cmp });
+      }
+      Statement::IndexedAccess { name, type_, pointer_expression, index } => {
+        if let Type::Id(id) = type_ {
+          self.types.ensure(*id);
+        }
+        let static_ty = match pointer_expression {
+          Expression::Variable(v) => v.type_.as_id().copied(),
+          _ => None,
+        };
+        let a = self.opnd(pointer_expression);
+        let dst = self.slot(*name);
+        self.code.push(Instr::Index { dst, a, idx: *index as u32, static_ty });
+      }
+      Statement::Call { callee, arguments, return_type, return_collector } => {
+        if let Type::Id(id) = return_type {
+          self.types.ensure(*id);
+        }
+        let args = self.opnds(arguments);
+        let dst = return_collector.map(|c| self.slot(c));
+        match callee {
+          Callee::FunctionName(f) => {
+            if let Some(b) = builtin_of(f.name) {
+              self.code.push(Instr::CallBuiltin { b, args, dst });
+            } else if let Some(i) = self.fn_index.get(&f.name) {
+              self.code.push(Instr::CallFn { func: *i, args, dst });
+            } else if f.name == FunctionName::BUILTIN_FREE
+              || f.name == FunctionName::BUILTIN_INC_REF
+              || f.name == FunctionName::BUILTIN_DEC_REF
+            {
+              self.code.push(Instr::Unsupported(
+                format!("reference counting builtin {}", self.fn_display(&f.name)).into(),
+              ));
+            } else {
+              self.code.push(Instr::Fault(
+                format!("call of undefined function {}", self.fn_display(&f.name)).into(),
+              ));
+            }
+          }
+          Callee::Variable(v) => {
+            let static_ty = v.type_.as_id().copied();
+            if let Some(id) = static_ty {
+              self.types.ensure(id);
+            }
+            let callee = self.slot(v.name);
+            self.code.push(Instr::CallClosure { callee, static_ty, args, dst });
+          }
+        }
+      }
+      Statement::IfElse { condition, s1, s2, final_assignments } => {
+        if s1.is_empty() && final_assignments.is_empty() {
+          // replicate the wasm lowering: nothing at all if both arms are empty (the condition is
+          // not even evaluated), otherwise `if (cond xor 1) { s2 }`
+          if s2.is_empty() {
+            return;
+          }
+          let c = self.opnd(condition);
+          let j = self.code.len();
+          self.code.push(Instr::JumpIfOne { c, t: 0 });
+          self.block(s2);
+          let end = self.here();
+          self.patch(j, end);
+          return;
+        }
+        let c = self.opnd(condition);
+        let j_else = self.code.len();
+        self.code.push(Instr::JumpIfZero { c, t: 0 });
+        self.block(s1);
+        for fa in final_assignments {
+          let a = self.opnd(&fa.e1);
+          let dst = self.slot(fa.name);
+          self.code.push(Instr::Mov { dst, a });
+        }
+        let j_end = self.code.len();
+        self.code.push(Instr::Jump(0));
+        let else_at = self.here();
+        self.patch(j_else, else_at);
+        self.block(s2);
+        for fa in final_assignments {
+          let a = self.opnd(&fa.e2);
+          let dst = self.slot(fa.name);
+          self.code.push(Instr::Mov { dst, a });
+        }
+        let end = self.here();
+        self.patch(j_end, end);
+      }
+      Statement::SingleIf { condition, invert_condition, statements } => {
+        let c = self.opnd(condition);
+        let j = self.code.len();
+        if *invert_condition {
+          self.code.push(Instr::JumpIfOne { c, t: 0 });
+        } else {
+          self.code.push(Instr::JumpIfZero { c, t: 0 });
+        }
+        self.block(statements);
+        let end = self.here();
+        self.patch(j, end);
+      }
+      Statement::Break(e) => {
+        let Some(collector) = self.loops.last().map(|l| l.collector) else {
+          // wasm lowering: self.loop_cx.as_ref().unwrap() panics
+          self.code.push(Instr::Fault("break outside of a loop".into()));
+          return;
+        };
+        if let Some(dst) = collector {
+          let a = self.opnd(e);
+          self.code.push(Instr::Mov { dst, a });
+        }
+        let j = self.code.len();
+        self.code.push(Instr::Jump(0));
+        self.loops.last_mut().unwrap().break_patches.push(j);
+      }
+      Statement::While { loop_variables, statements, break_collector } => {
+        for lv in loop_variables {
+          let a = self.opnd(&lv.initial_value);
+          let dst = self.slot(lv.name);
+          self.code.push(Instr::Mov { dst, a });
+        }
+        let collector = break_collector.map(|c| self.slot(c.name));
+        self.code.push(Instr::LoopEnter);
+        let head = self.here();
+        self.loops.push(LoopCx { collector, break_patches: Vec::new() });
+        self.block(statements);
+        for lv in loop_variables {
+          let a = self.opnd(&lv.loop_value);
+          let dst = self.slot(lv.name);
+          self.code.push(Instr::Mov { dst, a });
+        }
+        self.code.push(Instr::LoopBack(head));
+        let cx = self.loops.pop().unwrap();
+        let exit = self.here();
+        for p in cx.break_patches {
+          self.patch(p, exit);
+        }
+      }
+      Statement::Cast { name, type_, assigned_expression } => {
+        if let Type::Id(id) = type_ {
+          self.types.ensure(*id);
+        }
+        let a = self.opnd(assigned_expression);
+        let dst = self.slot(*name);
+        self.code.push(Instr::Cast { dst, ty: *type_, a });
+      }
+      Statement::LateInitDeclaration { name, type_ } => {
+        if let Type::Id(id) = type_ {
+          self.types.ensure(*id);
+        }
+        let dst = self.slot(*name);
+        self.code.push(Instr::Undef { dst });
+      }
+      Statement::LateInitAssignment { name, assigned_expression } => {
+        let a = self.opnd(assigned_expression);
+        let dst = self.slot(*name);
+        self.code.push(Instr::Mov { dst, a });
+      }
+      Statement::StructInit { struct_variable_name, type_name, expression_list } => {
+        self.types.ensure(*type_name);
+        let mut fields = self.opnds(expression_list);
+        if let Some(ts) = self.types.field_types(*type_name) {
+          if ts.len() != fields.len() {
+            // struct.new with the wrong operand count does not validate
+            self.code.push(Instr::Fault(
+              format!(
+                "StructInit of {} with {} values, the type has {} fields",
+                type_name.encoded_for_test(self.heap, &self.sources.symbol_table),
+                fields.len(),
+                ts.len()
+              )
+              .into(),
+            ));
+          }
+          // wasm lowering: a literal 0 stored into a reference-typed field becomes (ref.i31 0)
+          for (f, t) in fields.iter_mut().zip(ts.iter()) {
+            if matches!(f, Opnd::Int(0)) && *t != Type::Int32 {
+              *f = Opnd::I31(0);
+            }
+          }
+        } else if matches!(self.types.map.get(type_name), Some(TypeInfo::Sub { .. })) {
+          // parent unknown or variant not boxed
+          if let Some(TypeInfo::Sub { parent, .. }) = self.types.map.get(type_name) {
+            if self.types.map.contains_key(parent) {
+              self.code.push(Instr::Fault(
+                format!(
+                  "StructInit of {} which is not a boxed variant of its enum",
+                  type_name.encoded_for_test(self.heap, &self.sources.symbol_table)
+                )
+                .into(),
+              ));
+            }
+          }
+        } else if matches!(
+          self.types.map.get(type_name),
+          Some(TypeInfo::Enum(_)) | Some(TypeInfo::Closure(..))
+        ) {
+          self.code.push(Instr::Fault(
+            format!(
+              "StructInit of non-struct type {}",
+              type_name.encoded_for_test(self.heap, &self.sources.symbol_table)
+            )
+            .into(),
+          ));
+        }
+        let dst = self.slot(*struct_variable_name);
+        self.code.push(Instr::StructInit { dst, ty: *type_name, fields });
+      }
+      Statement::ClosureInit { closure_variable_name, closure_type_name, function_name, context } => {
+        self.types.ensure(*closure_type_name);
+        let ctx = self.opnd(context);
+        let dst = self.slot(*closure_variable_name);
+        if let Some(i) = self.fn_index.get(&function_name.name) {
+          self.code.push(Instr::ClosureInit { dst, ty: *closure_type_name, func: *i, ctx });
+        } else if builtin_of(function_name.name).is_some() {
+          self.code.push(Instr::Unsupported(
+            format!("closure over builtin {}", self.fn_display(&function_name.name)).into(),
+          ));
+        } else {
+          self.code.push(Instr::Fault(
+            format!("closure over undefined function {}", self.fn_display(&function_name.name))
+              .into(),
+          ));
+        }
+      }
+    }
+  }
+}
+
+impl<'a> Program<'a> {
+  /// compile every function of `sources` into the flat form (cheap: a few ms for the whole
+  /// repository test project); reuse the `Program` when running many functions of one `Sources`
+  pub fn new(heap: &'a Heap, sources: &'a mir::Sources) -> Program<'a> {
+    let mut types = TypeTable { heap, symbols: &sources.symbol_table, map: HashMap::new() };
+    for d in &sources.type_definitions {
+      let info = match &d.mappings {
+        TypeDefinitionMappings::Struct(ts) => TypeInfo::Struct(ts.clone()),
+        TypeDefinitionMappings::Enum(vs) => TypeInfo::Enum(vs.clone()),
+      };
+      types.map.insert(d.name, info);
+    }
+    // closure types after the enums are known (lowering of enum-with-i31 types to `eq`)
+    for c in &sources.closure_types {
+      let mut args = vec![LT::Eq];
+      args.extend(c.function_type.argument_types.iter().map(|t| types.lower(*t)));
+      let ret = types.lower(*c.function_type.return_type);
+      types.map.insert(c.name, TypeInfo::Closure(args, ret));
+    }
+    let mut fn_index = HashMap::new();
+    for (i, f) in sources.functions.iter().enumerate() {
+      fn_index.entry(f.name).or_insert(i as u32);
+    }
+    let mut str_index = HashMap::new();
+    let mut strings = Vec::new();
+    for g in &sources.global_variables {
+      let s = g.0;
+      str_index.entry(s).or_insert_with(|| {
+        strings.push(Rc::new(StrObj(s.as_str(heap).into())));
+        (strings.len() - 1) as u32
+      });
+    }
+    let mut funcs = Vec::with_capacity(sources.functions.len());
+    for f in &sources.functions {
+      let mut c = FnCompiler {
+        heap,
+        sources,
+        types: &mut types,
+        fn_index: &fn_index,
+        str_index: &str_index,
+        slots: HashMap::new(),
+        slot_names: Vec::new(),
+        code: Vec::new(),
+        loops: Vec::new(),
+      };
+      for p in &f.parameters {
+        // duplicate parameter names would alias; keep positional slots regardless
+        let s = c.slot_names.len() as u32;
+        c.slots.insert(*p, s);
+        c.slot_names.push(*p);
+      }
+      for t in f.type_.argument_types.iter().chain(std::iter::once(&*f.type_.return_type)) {
+        if let Type::Id(id) = t {
+          c.types.ensure(*id);
+        }
+      }
+      c.block(&f.body);
+      let r = c.opnd(&f.return_value);
+      c.code.push(Instr::Return(r));
+      let FnCompiler { slot_names, code, .. } = c;
+      let closure_sig = if f.type_.argument_types.is_empty() {
+        None
+      } else {
+        let mut args = vec![LT::Eq];
+        args.extend(f.type_.argument_types.iter().skip(1).map(|t| types.lower(*t)));
+        Some((args, types.lower(*f.type_.return_type)))
+      };
+      funcs.push(CFunc {
+        n_params: f.parameters.len(),
+        n_slots: slot_names.len(),
+        code,
+        slot_names,
+        closure_sig,
+      });
+    }
+    Program { heap, sources, funcs, strings, types, options: Options::default() }
+  }
+
+  pub fn with_options(mut self, options: Options) -> Program<'a> {
+    self.options = options;
+    self
+  }
+
+  /// encoded name (as in the emitted wasm / TS) of function `index`
+  pub fn function_name(&self, index: usize) -> String {
+    match self.sources.functions.get(index) {
+      Some(f) => f.name.encoded_for_test(self.heap, &self.sources.symbol_table),
+      None => format!("<function #{index}>"),
+    }
+  }
+
+  /// index of `Main.main` of `entry` (the name `compile_sources` exports for that module)
+  pub fn find_main(&self, entry: ModuleReference) -> Option<usize> {
+    let expected =
+      format!("_{}_{}${}", entry.encoded(self.heap), PStr::MAIN_TYPE.as_str(self.heap), "main");
+    self.sources.functions.iter().position(|f| {
+      f.name.fn_name == PStr::MAIN_FN
+        && f.name.encoded_for_test(self.heap, &self.sources.symbol_table) == expected
+    })
+  }
+
+  pub fn run_main(&self, entry: ModuleReference, limits: &Limits) -> (Trace, MirStats) {
+    let Some(idx) = self.find_main(entry) else {
+      return (
+        Trace::harness(format!(
+          "no Main.main for module {} in the MIR sources",
+          entry.pretty_print(self.heap)
+        )),
+        MirStats::default(),
+      );
+    };
+    let (t, _, s) = self.run_function(idx, &[], limits);
+    (t, s)
+  }
+
+  pub fn run_function(
+    &self,
+    function_index: usize,
+    int_args: &[i32],
+    limits: &Limits,
+  ) -> (Trace, Option<i32>, MirStats) {
+    let Some(f) = self.funcs.get(function_index) else {
+      return (
+        Trace::harness(format!("function index {function_index} out of range")),
+        None,
+        MirStats::default(),
+      );
+    };
+    if f.n_params != int_args.len() {
+      return (
+        Trace::harness(format!(
+          "{} takes {} parameters, {} integer arguments supplied",
+          self.function_name(function_index),
+          f.n_params,
+          int_args.len()
+        )),
+        None,
+        MirStats::default(),
+      );
+    }
+    let mut m = Machine {
+      prog: self,
+      limits: *limits,
+      stack: Vec::new(),
+      frames: Vec::new(),
+      lines: Vec::new(),
+      ub: UbFlags::default(),
+      stats: MirStats::default(),
+      scratch: Vec::new(),
+    };
+    let (ending, result) = m.run(function_index as u32, int_args);
+    let result = match result {
+      Some(Value::Int(i)) | Some(Value::I31(i)) => Some(i),
+      _ => None,
+    };
+    let stats = m.stats.clone();
+    let trace = Trace { lines: std::mem::take(&mut m.lines), ending, ub: m.ub.clone(), steps: stats.steps };
+    // free what is left iteratively
+    let mut rest = std::mem::take(&mut m.stack);
+    release(&mut rest);
+    (trace, result, stats)
+  }
+}
+
+// ------------------------------------------------------------------------------------------
+// execution
+// ------------------------------------------------------------------------------------------
+
+struct Frame {
+  func: u32,
+  pc: u32,
+  base: usize,
+  dst: Option<u32>,
+}
+
+struct Machine<'p, 'a> {
+  prog: &'p Program<'a>,
+  limits: Limits,
+  stack: Vec<Value>,
+  /// suspended callers
+  frames: Vec<Frame>,
+  lines: Vec<String>,
+  ub: UbFlags,
+  stats: MirStats,
+  scratch: Vec<Value>,
+}
+
+fn fault(kind: impl Into<String>) -> Ending {
+  Ending::Fault { kind: kind.into(), at: String::new() }
+}
+
+fn canonical_int_text(s: &str) -> bool {
+  let digits = s.strip_prefix('-').unwrap_or(s);
+  if digits.is_empty() || !digits.bytes().all(|b| b.is_ascii_digit()) {
+    return false;
+  }
+  if digits.len() > 1 && digits.starts_with('0') {
+    return false;
+  }
+  if s == "-0" {
+    return false;
+  }
+  s.parse::<i32>().is_ok()
+}
+
+impl<'p, 'a> Machine<'p, 'a> {
+  #[inline]
+  fn undef_fault(&self, func: u32, slot: u32) -> Ending {
+    let f = &self.prog.funcs[func as usize];
+    let n = f.slot_names.get(slot as usize).map(|n| n.as_str(self.prog.heap)).unwrap_or("?");
+    fault(format!("read of undefined variable {n}"))
+  }
+
+  #[inline]
+  fn val(&self, func: u32, base: usize, o: Opnd) -> Result<Value, Ending> {
+    match o {
+      Opnd::Int(i) => Ok(Value::Int(i)),
+      Opnd::I31(i) => Ok(Value::I31(i)),
+      Opnd::Str(i) => Ok(Value::Str(self.prog.strings[i as usize].clone())),
+      Opnd::Slot(s) => match &self.stack[base + s as usize] {
+        Value::Undef => Err(self.undef_fault(func, s)),
+        v => Ok(v.clone()),
+      },
+    }
+  }
+
+  #[inline]
+  fn int(&self, func: u32, base: usize, o: Opnd, what: &str) -> Result<i32, Ending> {
+    match o {
+      Opnd::Int(i) => Ok(i),
+      Opnd::Slot(s) => match &self.stack[base + s as usize] {
+        Value::Int(i) => Ok(*i),
+        Value::Undef => Err(self.undef_fault(func, s)),
+        v => Err(fault(format!("{what}: expected i32, found {}", v.kind()))),
+      },
+      Opnd::I31(_) => Err(fault(format!("{what}: expected i32, found i31"))),
+      Opnd::Str(_) => Err(fault(format!("{what}: expected i32, found string"))),
+    }
+  }
+
+  /// `ref.eq` / `i32.eq` on two values; mixing an i32 with a reference does not validate
+  fn ref_eq(a: &Value, b: &Value) -> Result<bool, Ending> {
+    Ok(match (a, b) {
+      (Value::Int(x), Value::Int(y)) => x == y,
+      (Value::Int(_), _) | (_, Value::Int(_)) => {
+        return Err(fault(format!("== between {} and {}", a.kind(), b.kind())));
+      }
+      (Value::I31(x), Value::I31(y)) => x == y,
+      (Value::Str(x), Value::Str(y)) => Rc::ptr_eq(x, y),
+      (Value::Struct(x), Value::Struct(y)) => Rc::ptr_eq(x, y),
+      (Value::Closure(x), Value::Closure(y)) => Rc::ptr_eq(x, y),
+      (Value::Vec(x), Value::Vec(y)) => Rc::ptr_eq(x, y),
+      _ => false,
+    })
+  }
+
+  /// element comparison of `Vec.eq`: every element is a `(ref null eq)`, ints are i31-boxed
+  fn elem_eq(a: &Value, b: &Value) -> bool {
+    match (a, b) {
+      (Value::Int(x) | Value::I31(x), Value::Int(y) | Value::I31(y)) => x == y,
+      _ => Self::ref_eq(a, b).unwrap_or(false),
+    }
+  }
+
+  fn arith(&mut self, op: Op, x: i32, y: i32) -> Result<i32, Ending> {
+    Ok(match op {
+      Op::PLUS => {
+        let (r, o) = x.overflowing_add(y);
+        self.ub.overflow |= o;
+        r
+      }
+      Op::MINUS => {
+        let (r, o) = x.overflowing_sub(y);
+        self.ub.overflow |= o;
+        r
+      }
+      Op::MUL => {
+        let (r, o) = x.overflowing_mul(y);
+        self.ub.overflow |= o;
+        r
+      }
+      Op::DIV => {
+        if y == 0 {
+          self.ub.div_zero = true;
+          return Err(Ending::ArithTrap("integer divide by zero".into()));
+        }
+        if x == i32::MIN && y == -1 {
+          self.ub.div_zero = true;
+          return Err(Ending::ArithTrap("integer overflow".into()));
+        }
+        x / y
+      }
+      Op::MOD => {
+        if y == 0 {
+          self.ub.div_zero = true;
+          return Err(Ending::ArithTrap("integer divide by zero".into()));
+        }
+        if x == i32::MIN && y == -1 {
+          // i32.rem_s does not trap here, the result is 0
+          self.ub.div_zero = true;
+          0
+        } else {
+          x % y
+        }
+      }
+      Op::LAND => x & y,
+      Op::LOR => x | y,
+      Op::XOR => x ^ y,
+      Op::SHL => x.wrapping_shl(y as u32),
+      Op::SHR => ((x as u32).wrapping_shr(y as u32)) as i32,
+      Op::LT => (x < y) as i32,
+      Op::LE => (x <= y) as i32,
+      Op::GT => (x > y) as i32,
+      Op::GE => (x >= y) as i32,
+      Op::EQ => (x == y) as i32,
+      Op::NE => (x != y) as i32,
+    })
+  }
+
+  fn new_str(&self, s: String) -> Result<Value, Ending> {
+    if s.len() > MAX_STRING_BYTES {
+      return Err(Ending::StepLimit);
+    }
+    Ok(Value::Str(Rc::new(StrObj(s.into_boxed_str()))))
+  }
+
+  fn want_str<'v>(v: &'v Value, what: &str) -> Result<&'v str, Ending> {
+    match v {
+      Value::Str(s) => Ok(&s.0),
+      v => Err(fault(format!("{what}: expected string, found {}", v.kind()))),
+    }
+  }
+
+  fn want_vec<'v>(v: &'v Value, what: &str) -> Result<&'v Rc<VecObj>, Ending> {
+    match v {
+      Value::Vec(o) => Ok(o),
+      v => Err(fault(format!("{what}: expected Vec, found {}", v.kind()))),
+    }
+  }
+
+  fn want_int(v: &Value, what: &str) -> Result<i32, Ending> {
+    match v {
+      Value::Int(i) => Ok(*i),
+      v => Err(fault(format!("{what}: expected i32, found {}", v.kind()))),
+    }
+  }
+
+  fn elem_in(&self, v: Value) -> Value {
+    match v {
+      Value::Int(i) if self.prog.options.vec_int_i31_truncation => Value::Int((i << 1) >> 1),
+      v => v,
+    }
+  }
+
+  /// the Vec growth policy of libsam.wat `$__Vec$reserve`
+  fn vec_reserve(inner: &mut VecInner, min: i32) {
+    if min <= inner.cap {
+      return;
+    }
+    let mut new_cap = inner.cap.wrapping_shl(1);
+    if new_cap < min {
+      new_cap = min;
+    }
+    if new_cap < 4 {
+      new_cap = 4;
+    }
+    inner.cap = new_cap;
+  }
+
+  /// arguments are in `self.scratch`
+  fn builtin(&mut self, b: Builtin) -> Result<Value, Ending> {
+    let mut args = std::mem::take(&mut self.scratch);
+    let r = self.builtin_inner(b, &mut args);
+    args.clear();
+    self.scratch = args;
+    r
+  }
+
+  fn builtin_inner(&mut self, b: Builtin, args: &mut [Value]) -> Result<Value, Ending> {
+    let what = b.name();
+    match b {
+      Builtin::Println => {
+        let s = Self::want_str(&args[1], what)?;
+        if self.lines.len() >= self.limits.max_lines {
+          return Err(Ending::StepLimit);
+        }
+        self.lines.push(s.to_string());
+        Ok(Value::Int(0))
+      }
+      Builtin::Panic => {
+        let s = Self::want_str(&args[1], what)?;
+        Err(Ending::Panic(s.to_string()))
+      }
+      Builtin::StrFromInt => {
+        let i = Self::want_int(&args[1], what)?;
+        self.new_str(i.to_string())
+      }
+      Builtin::StrToInt => {
+        let s = Self::want_str(&args[0], what)?;
+        if !canonical_int_text(s) {
+          self.ub.bad_to_int = true;
+        }
+        let bytes = s.as_bytes();
+        if bytes.is_empty() {
+          // libsam.wat reads byte 0 unconditionally: array.get_s out of bounds
+          return Err(fault("Str.toInt on the empty string (array access out of bounds in libsam)"));
+        }
+        let neg = bytes[0] == b'-';
+        let mut num: i32 = 0;
+        for &c in &bytes[neg as usize..] {
+          if c.wrapping_sub(48) > 9 {
+            return Ok(Value::Int(0));
+          }
+          num = num.wrapping_mul(10).wrapping_add((c as i8) as i32).wrapping_add(-48);
+        }
+        Ok(Value::Int(if neg { 0i32.wrapping_sub(num) } else { num }))
+      }
+      Builtin::StrConcat => {
+        let a = Self::want_str(&args[0], what)?;
+        let b = Self::want_str(&args[1], what)?;
+        if a.len() + b.len() > MAX_STRING_BYTES {
+          return Err(Ending::StepLimit);
+        }
+        let mut s = String::with_capacity(a.len() + b.len());
+        s.push_str(a);
+        s.push_str(b);
+        self.new_str(s)
+      }
+      Builtin::StrEq => {
+        let a = Self::want_str(&args[0], what)?;
+        let b = Self::want_str(&args[1], what)?;
+        Ok(Value::Int((a == b) as i32))
+      }
+      Builtin::VecEmpty => Ok(Value::Vec(Rc::new(VecObj {
+        inner: RefCell::new(VecInner { data: Vec::new(), cap: 0 }),
+      }))),
+      Builtin::VecWithCapacity => {
+        let cap = Self::want_int(&args[1], what)?;
+        if cap < 0 {
+          return Err(fault("Vec.withCapacity with a negative capacity (array.new traps)"));
+        }
+        if cap as usize > MAX_VEC_LEN {
+          return Err(Ending::StepLimit);
+        }
+        Ok(Value::Vec(Rc::new(VecObj {
+          inner: RefCell::new(VecInner { data: Vec::new(), cap }),
+        })))
+      }
+      Builtin::VecOf => {
+        let v = self.elem_in(std::mem::replace(&mut args[1], Value::Undef));
+        Ok(Value::Vec(Rc::new(VecObj { inner: RefCell::new(VecInner { data: vec![v], cap: 1 }) })))
+      }
+      Builtin::VecLength => {
+        let v = Self::want_vec(&args[0], what)?;
+        let n = v.inner.borrow().data.len() as i32;
+        Ok(Value::Int(n))
+      }
+      Builtin::VecCapacity => {
+        let v = Self::want_vec(&args[0], what)?;
+        self.ub.capacity_observed = true;
+        let n = v.inner.borrow().cap;
+        Ok(Value::Int(n))
+      }
+      Builtin::VecReserve => {
+        let v = Self::want_vec(&args[0], what)?;
+        let min = Self::want_int(&args[1], what)?;
+        if min > 0 && min as usize > MAX_VEC_LEN {
+          return Err(Ending::StepLimit);
+        }
+        Self::vec_reserve(&mut v.inner.borrow_mut(), min);
+        Ok(Value::Int(0))
+      }
+      Builtin::VecPush => {
+        let e = self.elem_in(std::mem::replace(&mut args[1], Value::Undef));
+        let v = Self::want_vec(&args[0], what)?;
+        let mut inner = v.inner.borrow_mut();
+        if inner.data.len() >= MAX_VEC_LEN {
+          return Err(Ending::StepLimit);
+        }
+        let need = inner.data.len() as i32 + 1;
+        Self::vec_reserve(&mut inner, need);
+        inner.data.push(e);
+        Ok(Value::Int(0))
+      }
+      Builtin::VecPop => {
+        let v = Self::want_vec(&args[0], what)?;
+        let popped = v.inner.borrow_mut().data.pop();
+        match popped {
+          Some(e) => Ok(e),
+          None => Err(Ending::VecBounds),
+        }
+      }
+      Builtin::VecGet => {
+        let v = Self::want_vec(&args[0], what)?;
+        let i = Self::want_int(&args[1], what)?;
+        let inner = v.inner.borrow();
+        if (i as u32) as usize >= inner.data.len() {
+          return Err(Ending::VecBounds);
+        }
+        Ok(inner.data[i as usize].clone())
+      }
+      Builtin::VecSet => {
+        let e = self.elem_in(std::mem::replace(&mut args[2], Value::Undef));
+        let v = Self::want_vec(&args[0], what)?;
+        let i = Self::want_int(&args[1], what)?;
+        let mut inner = v.inner.borrow_mut();
+        if (i as u32) as usize >= inner.data.len() {
+          return Err(Ending::VecBounds);
+        }
+        inner.data[i as usize] = e;
+        Ok(Value::Int(0))
+      }
+      Builtin::VecEq => {
+        let a = Self::want_vec(&args[0], what)?;
+        let b = Self::want_vec(&args[1], what)?;
+        if Rc::ptr_eq(a, b) {
+          return Ok(Value::Int(1));
+        }
+        let (a, b) = (a.inner.borrow(), b.inner.borrow());
+        if a.data.len() != b.data.len() {
+          return Ok(Value::Int(0));
+        }
+        let all = a.data.iter().zip(b.data.iter()).all(|(x, y)| Self::elem_eq(x, y));
+        Ok(Value::Int(all as i32))
+      }
+      Builtin::UnwrapI31 => match &args[0] {
+        Value::I31(i) => Ok(Value::Int(*i)),
+        v => Err(fault(format!("unwrapI31: expected i31, found {}", v.kind()))),
+      },
+    }
+  }
+
+  fn is_pointer(&self, v: &Value, ty: TypeNameId) -> Result<bool, Ending> {
+    Ok(match v {
+      Value::Int(_) => return Err(fault("pointer test (ref.test) on an i32")),
+      Value::Undef => unreachable!(),
+      Value::I31(_) => false,
+      Value::Str(_) => ty == TypeNameId::STR,
+      Value::Vec(_) => ty == TypeNameId::VEC,
+      Value::Closure(c) => c.ty == ty,
+      Value::Struct(o) => o.ty == ty || self.prog.types.parent_of(o.ty) == Some(ty),
+    })
+  }
+
+  fn type_display(&self, t: Type) -> String {
+    t.pretty_print(self.prog.heap, &self.prog.sources.symbol_table)
+  }
+
+  fn value_display(&self, v: &Value) -> String {
+    match v {
+      Value::Struct(o) => format!("struct {}", self.type_display(Type::Id(o.ty))),
+      Value::Closure(o) => format!("closure {}", self.type_display(Type::Id(o.ty))),
+      Value::I31(i) => format!("i31 {i}"),
+      v => v.kind().to_string(),
+    }
+  }
+
+  /// returns the ending and, on a normal return of the entry function, its value
+  fn run(&mut self, entry: u32, int_args: &[i32]) -> (Ending, Option<Value>) {
+    let prog = self.prog;
+    let mut func = entry;
+    let mut pc: usize = 0;
+    let mut base: usize = 0;
+    self.stack.resize(prog.funcs[entry as usize].n_slots, Value::Undef);
+    for (i, a) in int_args.iter().enumerate() {
+      self.stack[i] = Value::Int(*a);
+    }
+    self.stats.calls = 1;
+    self.stats.max_depth = 1;
+    if self.limits.max_depth < 1 {
+      return (Ending::StackExhausted, None);
+    }
+    let max_steps = self.limits.max_steps;
+    let mut steps: u64 = 0;
+
+    macro_rules! bail {
+      ($e:expr) => {{
+        let mut e: Ending = $e;
+        if let Ending::Fault { at, .. } = &mut e {
+          *at = prog.function_name(func as usize);
+        }
+        self.stats.steps = steps;
+        return (e, None);
+      }};
+    }
+    macro_rules! tri {
+      ($e:expr) => {
+        match $e {
+          Ok(v) => v,
+          Err(e) => bail!(e),
+        }
+      };
+    }
+
+    loop {
+      let code = &prog.funcs[func as usize].code;
+      let instr = &code[pc];
+      pc += 1;
+      steps += 1;
+      if steps > max_steps {
+        bail!(Ending::StepLimit);
+      }
+      match instr {
+        Instr::Binary { dst, op, a, b, str_cmp } => {
+          let r = if matches!(op, Op::EQ | Op::NE) {
+            let va = tri!(self.val(func, base, *a));
+            let vb = tri!(self.val(func, base, *b));
+            let eq = if *str_cmp {
+              let x = tri!(Self::want_str(&va, "string =="));
+              let y = tri!(Self::want_str(&vb, "string =="));
+              x == y
+            } else {
+              tri!(Self::ref_eq(&va, &vb))
+            };
+            (eq == (*op == Op::EQ)) as i32
+          } else {
+            let x = tri!(self.int(func, base, *a, op.as_str()));
+            let y = tri!(self.int(func, base, *b, op.as_str()));
+            tri!(self.arith(*op, x, y))
+          };
+          self.stack[base + *dst as usize] = Value::Int(r);
+        }
+        Instr::Not { dst, a } => {
+          let x = tri!(self.int(func, base, *a, "!"));
+          self.stack[base + *dst as usize] = Value::Int(x ^ 1);
+        }
+        Instr::IsPointer { dst, ty, a } => {
+          let v = tri!(self.val(func, base, *a));
+          let r = tri!(self.is_pointer(&v, *ty));
+          self.stack[base + *dst as usize] = Value::Int(r as i32);
+        }
+        Instr::Index { dst, a, idx, static_ty } => {
+          let v = tri!(self.val(func, base, *a));
+          let r = match &v {
+            Value::Struct(o) => {
+              if let Some(st) = static_ty {
+                let ok = match prog.types.map.get(st) {
+                  None => true,
+                  Some(TypeInfo::Struct(_)) | Some(TypeInfo::Sub { .. }) => o.ty == *st,
+                  // only the tag of a boxed variant can be read through the enum type
+                  Some(TypeInfo::Enum(_)) => prog.types.parent_of(o.ty) == Some(*st) && *idx == 0,
+                  Some(TypeInfo::Closure(..)) => false,
+                };
+                if !ok {
+                  bail!(fault(format!(
+                    "field {} read through type {} on a {}",
+                    idx,
+                    self.type_display(Type::Id(*st)),
+                    self.value_display(&v)
+                  )));
+                }
+              }
+              match o.fields.get(*idx as usize) {
+                Some(f) => f.clone(),
+                None => bail!(fault(format!(
+                  "field index {} out of range for {} with {} fields",
+                  idx,
+                  self.value_display(&v),
+                  o.fields.len()
+                ))),
+              }
+            }
+            other => bail!(fault(format!("field {} read on a {}", idx, self.value_display(other)))),
+          };
+          self.stack[base + *dst as usize] = r;
+        }
+        Instr::Mov { dst, a } => {
+          let v = tri!(self.val(func, base, *a));
+          self.stack[base + *dst as usize] = v;
+        }
+        Instr::Undef { dst } => {
+          self.stack[base + *dst as usize] = Value::Undef;
+        }
+        Instr::Cast { dst, ty, a } => {
+          let v = tri!(self.val(func, base, *a));
+          if !prog.types.value_matches(&v, *ty) {
+            bail!(fault(format!(
+              "cast of a {} to {}",
+              self.value_display(&v),
+              self.type_display(*ty)
+            )));
+          }
+          self.stack[base + *dst as usize] = v;
+        }
+        Instr::StructInit { dst, ty, fields } => {
+          let mut fs = Vec::with_capacity(fields.len());
+          for f in fields.iter() {
+            fs.push(tri!(self.val(func, base, *f)));
+          }
+          self.stack[base + *dst as usize] =
+            Value::Struct(Rc::new(StructObj { ty: *ty, fields: fs }));
+        }
+        Instr::ClosureInit { dst, ty, func: target, ctx } => {
+          let ctx = tri!(self.val(func, base, *ctx));
+          self.stack[base + *dst as usize] =
+            Value::Closure(Rc::new(ClosureObj { ty: *ty, func: *target, ctx }));
+        }
+        Instr::CallBuiltin { b, args, dst } => {
+          if args.len() != b.arity() {
+            bail!(fault(format!(
+              "{} called with {} arguments, expects {}",
+              b.name(),
+              args.len(),
+              b.arity()
+            )));
+          }
+          self.scratch.clear();
+          for a in args.iter() {
+            let v = tri!(self.val(func, base, *a));
+            self.scratch.push(v);
+          }
+          let r = tri!(self.builtin(*b));
+          if let Some(d) = dst {
+            self.stack[base + *d as usize] = r;
+          }
+        }
+        Instr::CallFn { func: target, args, dst } => {
+          let callee = &prog.funcs[*target as usize];
+          if args.len() != callee.n_params {
+            bail!(fault(format!(
+              "{} called with {} arguments, has {} parameters",
+              prog.function_name(*target as usize),
+              args.len(),
+              callee.n_params
+            )));
+          }
+          if self.frames.len() + 1 >= self.limits.max_depth {
+            bail!(Ending::StackExhausted);
+          }
+          let new_base = self.stack.len();
+          self.stack.resize(new_base + callee.n_slots, Value::Undef);
+          for (i, a) in args.iter().enumerate() {
+            let v = match self.val(func, base, *a) {
+              Ok(v) => v,
+              Err(e) => bail!(e),
+            };
+            self.stack[new_base + i] = v;
+          }
+          self.frames.push(Frame { func, pc: pc as u32, base, dst: *dst });
+          self.stats.calls += 1;
+          if self.frames.len() + 1 > self.stats.max_depth {
+            self.stats.max_depth = self.frames.len() + 1;
+          }
+          func = *target;
+          pc = 0;
+          base = new_base;
+        }
+        Instr::CallClosure { callee, static_ty, args, dst } => {
+          let cv = tri!(self.val(func, base, Opnd::Slot(*callee)));
+          let Value::Closure(c) = &cv else {
+            bail!(fault(format!("call of a {} (not a closure)", self.value_display(&cv))));
+          };
+          let target = c.func;
+          let cf = &prog.funcs[target as usize];
+          if args.len() + 1 != cf.n_params {
+            bail!(fault(format!(
+              "indirect call of {} with {}+1 arguments, has {} parameters",
+              prog.function_name(target as usize),
+              args.len(),
+              cf.n_params
+            )));
+          }
+          // call_indirect checks the function's type against the static closure type
+          match static_ty.and_then(|t| prog.types.map.get(&t)) {
+            Some(TypeInfo::Closure(want_args, want_ret)) => {
+              let ok = match &cf.closure_sig {
+                Some((have_args, have_ret)) => have_args == want_args && have_ret == want_ret,
+                None => false,
+              };
+              if !ok {
+                bail!(fault(format!(
+                  "indirect call signature mismatch: {} called through closure type {}",
+                  prog.function_name(target as usize),
+                  self.type_display(Type::Id(static_ty.unwrap()))
+                )));
+              }
+            }
+            _ => {
+              // the LIR lowering looks the closure type up and unwraps
+              bail!(fault(format!(
+                "callee variable has type {} which is not a closure type",
+                match static_ty {
+                  Some(t) => self.type_display(Type::Id(*t)),
+                  None => "<non-id>".to_string(),
+                }
+              )));
+            }
+          }
+          if self.frames.len() + 1 >= self.limits.max_depth {
+            bail!(Ending::StackExhausted);
+          }
+          let new_base = self.stack.len();
+          self.stack.resize(new_base + cf.n_slots, Value::Undef);
+          self.stack[new_base] = c.ctx.clone();
+          for (i, a) in args.iter().enumerate() {
+            let v = match self.val(func, base, *a) {
+              Ok(v) => v,
+              Err(e) => bail!(e),
+            };
+            self.stack[new_base + 1 + i] = v;
+          }
+          self.frames.push(Frame { func, pc: pc as u32, base, dst: *dst });
+          self.stats.calls += 1;
+          if self.frames.len() + 1 > self.stats.max_depth {
+            self.stats.max_depth = self.frames.len() + 1;
+          }
+          func = target;
+          pc = 0;
+          base = new_base;
+        }
+        Instr::Jump(t) => pc = *t as usize,
+        Instr::JumpIfZero { c, t } => {
+          let x = tri!(self.int(func, base, *c, "condition"));
+          if x == 0 {
+            pc = *t as usize;
+          }
+        }
+        Instr::JumpIfOne { c, t } => {
+          let x = tri!(self.int(func, base, *c, "condition"));
+          if x ^ 1 == 0 {
+            pc = *t as usize;
+          }
+        }
+        Instr::LoopEnter => {
+          self.stats.loop_iterations += 1;
+        }
+        Instr::LoopBack(t) => {
+          self.stats.loop_iterations += 1;
+          pc = *t as usize;
+        }
+        Instr::Return(o) => {
+          let v = tri!(self.val(func, base, *o));
+          // (the Drop impls of the heap objects are iterative, long chains are fine)
+          self.stack.truncate(base);
+          match self.frames.pop() {
+            None => {
+              self.stats.steps = steps;
+              return (Ending::Return, Some(v));
+            }
+            Some(fr) => {
+              func = fr.func;
+              pc = fr.pc as usize;
+              base = fr.base;
+              if let Some(d) = fr.dst {
+                self.stack[base + d as usize] = v;
+              }
+            }
+          }
+        }
+        Instr::Fault(k) => bail!(fault(k.to_string())),
+        Instr::Unsupported(k) => bail!(Ending::Harness(format!("unsupported: {k}"))),
+      }
+    }
+  }
+}
+
+// ------------------------------------------------------------------------------------------
+// public entry points
+// ------------------------------------------------------------------------------------------
+
+/// run `Main.main` of the given entry module
+pub fn run_main(
+  heap: &Heap,
+  sources: &mir::Sources,
+  entry_module: ModuleReference,
+  limits: &Limits,
+) -> (Trace, MirStats) {
+  Program::new(heap, sources).run_main(entry_module, limits)
+}
+
+/// run any function by its index in `sources.functions` with integer arguments (pointers cannot
+/// be supplied); returns the integer result if the return value is an int-like value (i32 / i31)
+pub fn run_function(
+  heap: &Heap,
+  sources: &mir::Sources,
+  function_index: usize,
+  int_args: &[i32],
+  limits: &Limits,
+) -> (Trace, Option<i32>, MirStats) {
+  Program::new(heap, sources).run_function(function_index, int_args, limits)
+}
